@@ -36,6 +36,24 @@ static void on_alarm(int)
     _exit(0);
 }
 
+// the library ends the process (exit) on inversion of zero; anywhere else an exit in the middle of a call is a call that never
+// returned: the handler names the operand (armed in the enumeration workers and in the replay, not in chk_zero's children)
+static volatile int g_exit_armed = 0;
+static void on_exit_report()
+{
+    if (!g_exit_armed) return;
+    char buf[256];
+    int n = snprintf(buf, sizeof buf, "VIOL C10.exit.%s.w%u\tw=%u op=%s a=0x%llx b=0x%llx\tthe library ended the process during this call (no result returned)\n", cur_op, W, W, cur_op, (unsigned long long)cur_a, (unsigned long long)cur_b);
+    fflush(stdout);
+    if (write(1, buf, n)) {}
+}
+static void arm_exit_report()
+{
+    static bool registered = false;
+    if (!registered) { atexit(on_exit_report); registered = true; }
+    g_exit_armed = 1;
+}
+
 static void chk_inv(u64 a, long long &ev)
 {
     cur_op = "inv"; cur_a = a; cur_b = 0;
@@ -205,12 +223,14 @@ int main(int argc, char **argv)
         if (cu(m, "w", 32) != W) { printf("INFO skip width\n"); return 0; }
         std::string op = cs(m, "op");
         long long ev = 0;
+        if (op.rfind("zero-", 0) != 0) arm_exit_report();
         alarm(60);
         if (op == "inv") chk_inv(cu(m, "a"), ev);
         else if (op == "div") chk_div(cu(m, "a"), cu(m, "b"), ev);
         else if (op == "exp") chk_exp(cu(m, "a"), cu(m, "b"), ev);
         else if (op == "history") { long long h = 0; chk_history(cu(m, "a"), ev, h); }
         else if (op.rfind("zero-", 0) == 0) { alarm(0); chk_zero(op.c_str() + 5, cu(m, "a"), cu(m, "b")); }
+        g_exit_armed = 0;
         rep().flush();
         return 0;
     }
@@ -226,6 +246,7 @@ int main(int argc, char **argv)
     const long nslices = 64;
     fork_pool(nslices, args.jobs, [&](long sl) {
         long long ev = 0;
+        arm_exit_report();
         alarm(th ? 1500 : 240);
         for (u64 a = (u64)sl; a < N; a += nslices)
         {
@@ -264,6 +285,7 @@ int main(int argc, char **argv)
     const long nslices = 64;
     fork_pool(nslices, args.jobs, [&](long sl) {
         long long ev = 0;
+        arm_exit_report();
         alarm(th ? 1500 : 240);
         for (size_t i = (size_t)sl; i < inv_ops.size(); i += nslices)
         {
